@@ -37,7 +37,11 @@ func (st *Store) GetOpt() *FeeOption {
 
 func (st *Store) Get(address []byte) (coin balance.Coin, err error) {
 	key := append(st.prefix, storage.StoreKey(address)...)
-	dat, _ := st.state.Get(key)
+	dat, err := st.state.Get(key)
+	if err != nil {
+		// a refused read is not an empty pool
+		return st.feeOpt.FeeCurrency.NewCoinFromInt(0), err
+	}
 	a := balance.NewAmount(0)
 	if len(dat) == 0 {
 		return st.feeOpt.FeeCurrency.NewCoinFromInt(0), nil
